@@ -149,7 +149,11 @@ func evObjHistory(t *Tracer, r Rng) {
 		switch r.Intn(9) {
 		case 0, 1, 2:
 			id := ID{maxI(0, v[0]) % 36, abs64(v[1]), abs64(v[2]), maxI(0, v[3]) % 36, v[4]}
-			err := ext.ResetExtendedSpatialID(id.String())
+			text := id.String()
+			if r.Chance(0.4) {
+				text = respell(r, text) // the same numbers written with leading zeros / '+' / '-0'
+			}
+			err := ext.ResetExtendedSpatialID(text)
 			ops = append(ops, []any{"reset", id.H, id.X, id.Y, id.V, id.F})
 			if err != nil {
 				obs = append(obs, []int64{-1})
